@@ -146,6 +146,15 @@ class TableCalc(Calculator):
         self.results = {"energy": e, "forces": np.zeros((len(self.atoms), 3))}
 
 
+def new_like(calc):
+    """A new, never-used calculator of the same class and parameters (what a user attaches after a restart)."""
+    if isinstance(calc, CountingEMT):
+        return CountingEMT()
+    if isinstance(calc, CountingLJ):
+        return CountingLJ(**{k: v for k, v in calc.parameters.items()})
+    return fresh_like(calc)
+
+
 def fresh_like(calc):
     """An independent calculator of the same kind with the same parameters
     (for from-scratch evaluation of a configuration)."""
